@@ -63,6 +63,7 @@ def _gen_dicts(wl, band):
     d['BKF1'] = dict(base, **(gen_burst_kwargs(wl, 'amp') or {}))
     d['FE0'] = gen_find_extrema_kwargs(wl) or {'filter_kwargs': {'n_cycles': 3}}
     d['FE1'] = {'filter_kwargs': '@FK0'}
+    d['FE2'] = {'boundary': wl.choice((0, 2, 5, 10))}          # no filter_kwargs entry
     d['FK0'] = {'n_cycles': wl.choice((3, 3, 4))}
     # compute_features_kwargs dicts nest references to the dicts above
     for i in range(3):
@@ -143,7 +144,7 @@ def _gen_session(wl, plan, s, plots):
             rs = wl.random() < 0.8
             th = wl.choice((None, 'THC0', 'THC1', 'THC2')) if method == 'cycles' else wl.choice((None, 'THA0', 'THA1', 'THA1'))
             bk = wl.choice((None, 'BK0', 'BK0', 'BK1')) if method == 'amp' else wl.choice((None, 'BK1'))
-            fe = wl.choice((None, None, 'FE0', 'FE1'))
+            fe = wl.choice((None, None, 'FE0', 'FE1', 'FE2'))
             op = {'fn': 'cf', 'sig': sig, 'center': center, 'method': method, 'th': th, 'bk': bk,
                   'fe': fe, 'rs': rs}
             if natural and wl.random() < 0.2:
@@ -154,7 +155,8 @@ def _gen_session(wl, plan, s, plots):
                               'method': method, 'samples': rs})
         elif r < 0.37:
             center = wl.choice(('peak', 'trough'))
-            ops.append({'fn': 'shape', 'sig': sig, 'center': center, 'fe': wl.choice((None, 'FE0', 'FE1'))})
+            ops.append({'fn': 'shape', 'sig': sig, 'center': center, 'fe': wl.choice((None, 'FE0', 'FE1', 'FE2')),
+                        'n_cycles': wl.choice((3, 3, 4, 5))})
             avail.append({'name': rname_prev(s, ops), 'kind': 'shape', 'sig': sig, 'center': center,
                           'samples': True})
         elif r < 0.41:
@@ -436,8 +438,10 @@ def build_call(op, get, band):
             kw['threshold_kwargs'] = get('THBAD_' + op['method'])
         return F.compute_features, (get(op['sig']), fs, f_range), kw
     if fn == 'shape':
-        return F.compute_shape_features, (get(op['sig']), fs, f_range), dict(
-            center_extrema=op['center'], find_extrema_kwargs=opt(op['fe']))
+        kw = dict(center_extrema=op['center'], find_extrema_kwargs=opt(op['fe']))
+        if op.get('n_cycles', 3) != 3:
+            kw['n_cycles'] = op['n_cycles']
+        return F.compute_shape_features, (get(op['sig']), fs, f_range), kw
     if fn == 'cyclepoints':
         fe = opt(op['fe'])
         return F.compute_cyclepoints, (get(op['sig']), fs, f_range), ({} if fe is None else fe)
